@@ -308,6 +308,93 @@ def update_checks(build):
     return found
 
 
+REF_FROM_BQM_SRC = """
+obj = cls.__new__(cls)
+try:
+    obj.data = obj._DATA_CLASSES[np.dtype(bqm.dtype)].from_cybqm(bqm.data)
+except (TypeError, KeyError):
+    obj = cls()
+else:
+    return obj
+for v in bqm.variables:
+    obj.set_linear(obj.add_variable(bqm.vartype, v), bqm.get_linear(v))
+for u, v, bias in bqm.iter_quadratic():
+    obj.set_quadratic(u, v, bias)
+obj.offset = bqm.offset
+return obj
+"""
+
+# from_cybqm, line by line (comments and blank lines dropped): what each line contributes
+FROM_CYBQM_LINES = [
+    ("cdef cyQM_template qm = cls()", None),
+    ("qm.offset = bqm.offset", "FbOffset"),
+    ("cdef Py_ssize_t vi", None),
+    ("cdef cppVartype vartype = bqm.cppbqm.vartype()", "FbVartypeOfBqm"),
+    ("for vi in range(bqm.num_variables()):", None),
+    ("qm.cppqm.add_variable(vartype)", "FbAddVariable"),
+    ("qm.cppqm.set_linear(vi, bqm.cppbqm.linear(vi))", "FbLinear"),
+    ("qm.variables._extend(bqm.variables)", "FbLabels"),
+    ("it = bqm.cppbqm.cbegin_quadratic()", None),
+    ("while it != bqm.cppbqm.cend_quadratic():", None),
+    ("qm.cppqm.set_quadratic(deref(it).u, deref(it).v, deref(it).bias)", "FbQuadratic"),
+    ("inc(it)", None),
+    ("return qm", None),
+]
+
+
+def from_bqm_steps(build):
+    """QuadraticModel.from_bqm (python, compared with reference code) and cyqm from_cybqm (every line must be
+    one of the known lines, in the known order; a missing line is allowed and shows in the emitted list, so the
+    Coq proof that from_bqm keeps offset, variables, labels, linear and quadratic biases fails)"""
+    path = os.path.join(build, "dimod/quadratic/quadratic_model.py")
+    src = open(path).read()
+    tree = ast.parse(src)
+    cl = [n for n in tree.body if isinstance(n, ast.ClassDef) and n.name == "QuadraticModel"]
+    fns = [n for n in cl[0].body if isinstance(n, ast.FunctionDef) and n.name == "from_bqm"] if cl else []
+    if len(fns) != 1:
+        raise Bad("QuadraticModel.from_bqm not found")
+    fn = fns[0]
+    if [ast.unparse(d) for d in fn.decorator_list] != ["classmethod"] or [a.arg for a in fn.args.args] != ["cls", "bqm"]:
+        raise Bad(f"line {fn.lineno}: from_bqm is expected to be a classmethod (cls, bqm)")
+    body = [s for s in fn.body if not (isinstance(s, ast.Expr) and isinstance(s.value, ast.Constant))]
+    ref = ast.parse(REF_FROM_BQM_SRC).body
+    if len(body) != len(ref):
+        raise Bad(f"line {fn.lineno}: from_bqm has {len(body)} statements, expected {len(ref)}")
+    for s, r in zip(body, ref):
+        if ast.unparse(s) != ast.unparse(r):
+            raise Bad(f"line {s.lineno}: from_bqm differs from the reference: {seg(src, s)}")
+    # the cython constructor
+    path = os.path.join(build, "dimod/quadratic/cyqm/cyqm_template.pyx.pxi")
+    lines = open(path).read().split("\n")
+    start = [i for i, l in enumerate(lines) if l.strip() == "def from_cybqm(cls, cyBQM bqm):"]
+    if len(start) != 1 or lines[start[0] - 1].strip() != "@classmethod":
+        raise Bad("cyqm from_cybqm(cls, cyBQM bqm) classmethod not found")
+    got = []
+    for j in range(start[0] + 1, len(lines)):
+        l = lines[j]
+        if l.strip() and not l.startswith("        "):
+            break                                   # back at method level
+        t = l.split("#", 1)[0].strip()
+        if t:
+            got.append((j + 1, t))
+    known = [k for k, _ in FROM_CYBQM_LINES]
+    pos = -1
+    steps = []
+    for ln, t in got:
+        if t not in known:
+            raise Bad(f"cyqm_template.pyx.pxi line {ln}: from_cybqm line outside the grammar: {t}")
+        k = known.index(t)
+        if k <= pos:
+            raise Bad(f"cyqm_template.pyx.pxi line {ln}: from_cybqm line out of order or repeated: {t}")
+        pos = k
+        if FROM_CYBQM_LINES[k][1]:
+            steps.append(FROM_CYBQM_LINES[k][1])
+    for need in ("cdef cyQM_template qm = cls()", "return qm"):
+        if need not in [t for _, t in got]:
+            raise Bad(f"cyqm from_cybqm: `{need}` missing")
+    return steps
+
+
 def main():
     build, out = sys.argv[1], sys.argv[2]
     lines = ["(* GENERATED by translators/ops_dispatch.py from binary_quadratic_model.py, quadratic_model.py,",
@@ -361,6 +448,11 @@ def main():
     names = {"vartype": "CkVartype", "lower_bound": "CkLower", "upper_bound": "CkUpper"}
     lines.append("Definition gen_update_checks : list (upd_check * exnk) :=")
     lines.append("  [" + "; ".join(f"({names[f]}, {exn[e]})" for f, e in checks) + "].")
+    lines.append("")
+    steps = from_bqm_steps(build)
+    lines.append("(* QuadraticModel.from_bqm -> cyqm from_cybqm(): what the constructor copies from the BQM, in source order *)")
+    lines.append("Definition gen_from_bqm : list fb_step :=")
+    lines.append("  [" + "; ".join(steps) + "].")
     lines.append("")
     os.makedirs(out, exist_ok=True)
     with open(os.path.join(out, "Gen_Ops.v"), "w") as fh:
